@@ -18,6 +18,8 @@ with open(os.path.join(V, "seeded", "SUMMARY.md"), "w") as f:
     for r in rows:
         f.write("| %s | %s | %s | %s | %s |\n" % tuple(x.replace("|", "/") for x in r))
     n = len(rows)
-    caught = sum(1 for r in rows if "caught" in r[3] and "MISSED" not in r[3].split(",")[0])
-    f.write("\n%d seeded changes; %d caught by the check of the property they break.\n" % (n, caught))
+    own = sum(1 for r in rows if ("%s:caught" % r[1]) in r[3])
+    anyc = sum(1 for r in rows if ":caught" in r[3])
+    f.write("\n%d seeded changes; %d reported by the quick check of the property they were filed under, %d by the quick check of some property "
+            "(a change filed under one property whose effect is a violation of another property's statement is reported by that other check).\n" % (n, own, anyc))
 print(open(os.path.join(V, "seeded", "SUMMARY.md")).read()[-400:])
